@@ -37,12 +37,12 @@ if [ $clean_rc -ge 1 ] && [ $suite_ok = 1 ] && [ $mut_fail -ge 1 ]; then
   git -C /repo apply $DIFF || { echo "does not apply to /repo"; exit 3; }
   res=""
   for Q in $P "$@"; do
-    out=$(cd /verif && timeout 900 VERIF_SCRATCH_EVIDENCE=1 ./check $Q quick 2>&1); rc=$?
+    out=$(cd /verif && env VERIF_SCRATCH_EVIDENCE=1 timeout 900 ./check $Q quick 2>&1); rc=$?
     lab=$(echo "$out" | grep -o "entry=[A-Za-z0-9]* label=[a-zA-Z0-9_-]*" | head -2 | tr '\n' ';')
     echo "   check $Q quick: rc=$rc $lab"
     res="$res $Q:quick:rc=$rc:$lab"
     if [ $rc != 1 ] && [ "${THOROUGH:-0}" = 1 ]; then
-      out=$(cd /verif && timeout 3000 VERIF_SCRATCH_EVIDENCE=1 ./check $Q thorough 2>&1); rc2=$?
+      out=$(cd /verif && env VERIF_SCRATCH_EVIDENCE=1 timeout 3000 ./check $Q thorough 2>&1); rc2=$?
       lab=$(echo "$out" | grep -o "entry=[A-Za-z0-9]* label=[a-zA-Z0-9_-]*" | head -2 | tr '\n' ';')
       echo "   check $Q thorough: rc=$rc2 $lab"; [ $rc2 = 2 ] && echo "$out" | grep "INCONCLUSIVE\|UNCONFIRMED" | cut -c1-300 | head -3
       res="$res $Q:thorough:rc=$rc2:$lab"
